@@ -207,6 +207,30 @@ func runC02(r *Run, rng *Rng, thorough bool) {
 					tamperCase(r, cls+"protected-bstr-head", known, envelope(pb, nMap(), nBstr(pl1), nBstr(s1)), cb.k.id)
 				}
 			}
+			// a message without a signature never verifies: sign, then a signing attempt that fails (signer error / empty
+			// signature) on the same Evidence, then Verify with the signer's key and with another key
+			for _, mode := range []string{"failing", "emptysig"} {
+				dd := *d
+				ops := []*evOp{{Kind: "setclaims", D: &dd}, {Kind: "sign", Key: cb.k.id, Alg: cb.alg, Mode: "good"}, {Kind: "verify", Key: cb.k.id},
+					{Kind: "sign", Key: cb.k.id, Alg: cb.alg, Mode: mode}, {Kind: "verify", Key: cb.k.id}, {Kind: "verify", Key: ok2.id},
+					{Kind: "vsign", Key: cb.k.id, Alg: cb.alg, Mode: mode}, {Kind: "verify", Key: cb.k.id}}
+				want := []string{"ok", "ok*", "ok", "err", "err", "err", "err", "err"}
+				ev := &psa.Evidence{}
+				res := make([]string, len(ops))
+				protos := make([]string, len(ops))
+				for i, o := range ops {
+					res[i] = stepString(o, o.exec(ev))
+					protos[i] = o.proto()
+				}
+				r.Case(cls+"faulted-resign", false, fmt.Sprintf("ev keys=%s ops=%s", keysProto(), strings.Join(protos, "|")),
+					"r="+strings.Join(res, ",")+" claims="+evClaimsDesc(ev))
+				for i := range ops {
+					okw := res[i] == want[i] || (want[i] == "ok*" && strings.HasPrefix(res[i], "ok"))
+					if !okw {
+						r.Fail("no-signature-never-verifies", fmt.Sprintf("step %d (%s): %s, expected %s", i, trunc(protos[i], 40), trunc(res[i], 12), want[i]))
+					}
+				}
+			}
 			// one Evidence object used repeatedly: right key, then a wrong key; a second token, then a wrong key
 			{
 				ops := []*evOp{{Kind: "know", Key: cb.k.id, Bytes: tok}, {Kind: "know", Key: cb.k.id, Bytes: tok2}, {Kind: "know", Key: ok2.id, Bytes: tok3},
@@ -364,4 +388,5 @@ func runC03(r *Run, rng *Rng, thorough bool) {
 			}
 		}
 	}
+	extSignRoundTrip(r, rng, map[bool]int{false: 300, true: 6000}[thorough])
 }
